@@ -42,6 +42,7 @@ func (s *FileSeed) LongestMatchWith(chunks []IndexChunk) (int, SeedSegment) {
 	s.mu.RLock()
 	// isInvalid can be concurrently read or wrote. Use a mutex to avoid a race
 	if len(chunks) == 0 || len(s.index.Chunks) == 0 || s.isInvalid {
+		s.mu.RUnlock()
 		return 0, nil
 	}
 	s.mu.RUnlock()
